@@ -213,7 +213,7 @@ func monC07(c *child.Ctx, replay json.RawMessage) {
 		}
 	}
 	// (1) every type x every payload length x shapes
-	shapes := c.Pick(3, 40)
+	shapes := c.Pick(6, 40)
 	idx := 0
 	for _, t := range c07Types {
 		for n := 1; n <= 1023; n++ {
@@ -244,7 +244,7 @@ func monC07(c *child.Ctx, replay json.RawMessage) {
 		c.Count("one_byte_payload_frames", int64(found))
 	}
 	// (2) well-formed messages truncated at every byte, and with mask bits flipped upward; illegal timestamps
-	nWell := c.Share(c.Pick(150, 6000))
+	nWell := c.Share(c.Pick(400, 12000))
 	for i := 0; i < nWell; i++ {
 		var payload []byte
 		var t int
@@ -283,7 +283,7 @@ func monC07(c *child.Ctx, replay json.RawMessage) {
 		}
 	}
 	// (3) arbitrary streams through the stream handler, both log levels
-	nStreams := c.Share(c.Pick(2000, 60000))
+	nStreams := c.Share(c.Pick(6000, 120000))
 	for i := 0; i < nStreams; i++ {
 		var b []byte
 		switch i % 10 {
